@@ -181,7 +181,8 @@ class C18(Check):
     def warm_all(self, workers):
         cfgs = self.warm_configs()
         bad = [x for x in fork_map(self._warm_one, cfgs, workers, 1500) if x[1] != "ok"]
-        bad += [x for x in fork_map(lambda cs: [self._warm_one(c) for c in cs], [cfgs], 1, 3000) if x[1] != "ok"]
+        # second parallel pass: near-free when cached, recompiles entries lost to concurrent index writers
+        bad += [x for x in fork_map(self._warm_one, cfgs, workers, 1500) if x[1] != "ok"]
         return bad
 
     # ------------------------------------------------------------------ program
